@@ -70,6 +70,9 @@ def canon(w):
 
 def run_once(csym, params, entry, with_breaker):
     w = World(csym, params)
+    if params.get("end_hook_fault"):
+        # the on_attempt_end hook raises at a solver-chosen invocation (also when it is told about a SUCCESS)
+        w.fault = dict(site="attempt_end", exc=ValueError, at=csym.choice("end_hook_fault_at", [1, 2]))
     breaker = None
     if with_breaker:
         inner = CircuitBreaker(failure_threshold=1, window_s=100.0, recovery_timeout_s=5.0, clock=lambda: w.clock.now)
@@ -173,6 +176,11 @@ def jobs(tier):
         out.append(dict(name=f"fwd-timed:{entry}", harness="rv.props.c12:h_pair",
                         params=dict(N=N, kinds=["exc", "res"], classes=["TRANSIENT"], timed=True, strat=dict(raw="real"),
                                     operation="op", ref="retry.call", entry=entry), max_wall_s=wall, weight=2))
+    # a raising on_attempt_end hook (also on success): sync and async twins must still emit the same events
+    for ref, entry in (("retry.call", "aretry.call"), ("retry.execute", "aretry.execute"), ("policy.call", "apolicy.call")):
+        out.append(dict(name=f"end-hook-raises:{ref}~{entry}", harness="rv.props.c12:h_pair",
+                        params=dict(N=2, kinds=["ok", "exc", "res"], classes=["TRANSIENT", "PERMANENT"], attempt_hooks=True,
+                                    end_hook_fault=True, operation="op", ref=ref, entry=entry), max_wall_s=wall, weight=1))
     for entry in ["retry.execute", "aretry.call", "aretry.execute"]:
         out.append(dict(name=f"timed:{entry}", harness="rv.props.c12:h_pair",
                         params=dict(N=N, kinds=["ok", "exc", "res"], classes=["TRANSIENT"], timed=True, strat=dict(raw="real"),
